@@ -82,12 +82,15 @@ Inductive eev :=
 (* observable events, in the order in which they happen *)
 Inductive tev :=
 | TAccept (c : nat)
-| TInvoke (c : nat) (cl : call P)   (* the service is invoked with cl, which was read from c *)
-| TNewStream (c key : nat)          (* ... and answered Multi *)
+| TInvoke (c : nat) (cl : call P) (a : answer (reply P) (err P))
+                                    (* the service is invoked with cl, which was read from c, and
+                                       answers a *)
+| TNewStream (c key : nat)          (* ... a = Multi: the service made a stream named key *)
 | TWrite (c : nat) (m : msg)
 | TWriteFail (c : nat) (m : msg)
 | TDrop (c : nat)                   (* the connection (socket) is dropped *)
-| TSDrop (key : nat)                (* a reply stream is dropped *)
+| TSYield (c key : nat) (e : sev)   (* the stream named key, parked with c, yields e *)
+| TSDrop (c key : nat)              (* the reply stream made for c is dropped *)
 | TExit.
 
 (* a connection: ReadConnection state + the socket as the environment left it *)
@@ -170,16 +173,16 @@ Definition handle_call (cl : call P) (c : conn) (s : sstate P) : hres * sstate P
   if oneway P cl then
     (* `_ if oneway => ()` (mod.rs:178-179): nothing is sent, a stream the service made is dropped *)
     (HKeep c, s',
-     TInvoke (cid c) cl ::
-     match ans with AMulti => [TNewStream (cid c) (skey P cl); TSDrop (skey P cl)] | _ => [] end)
+     TInvoke (cid c) cl ans ::
+     match ans with AMulti => [TNewStream (cid c) (skey P cl); TSDrop (cid c) (skey P cl)] | _ => [] end)
   else
   match ans with
   | ASingle p =>
-      let (h, t) := reply_with c (WSingle p) in (h, s', TInvoke (cid c) cl :: t)
+      let (h, t) := reply_with c (WSingle p) in (h, s', TInvoke (cid c) cl ans :: t)
   | AError e =>
-      let (h, t) := reply_with c (WError e) in (h, s', TInvoke (cid c) cl :: t)
+      let (h, t) := reply_with c (WError e) in (h, s', TInvoke (cid c) cl ans :: t)
   | AMulti =>
-      (HPark (skey P cl), s', [TInvoke (cid c) cl; TNewStream (cid c) (skey P cl)])
+      (HPark (skey P cl), s', [TInvoke (cid c) cl ans; TNewStream (cid c) (skey P cl)])
   end.
 
 (* the body of select branch 2 (mod.rs:87-111); cs = the connections after the scan *)
@@ -238,18 +241,20 @@ Definition on_stream (s : sv) (idx : nat) (e : sev) : istatus * sv * list tev :=
       match e with
       | SItem r =>
           let '(ok, c', t) := write_conn c (WItem r) in
-          if ok then (Progress, set_streams s1 (upd_nth idx (key, c') (streams s)), t)
-          else (Progress, set_streams s1 (swap_remove idx (streams s)), t ++ [TSDrop key; TDrop (cid c)])
+          if ok then (Progress, set_streams s1 (upd_nth idx (key, c') (streams s)),
+                      TSYield (cid c) key e :: t)
+          else (Progress, set_streams s1 (swap_remove idx (streams s)),
+                TSYield (cid c) key e :: t ++ [TSDrop (cid c) key; TDrop (cid c)])
       | SEnd =>
           (Progress, set_conns (set_streams s1 (swap_remove idx (streams s))) (conns s ++ [c]),
-           [TSDrop key])
+           [TSYield (cid c) key e; TSDrop (cid c) key])
       end
   end.
 
 (* everything owned by the future is dropped when `run` returns (reverse declaration order:
    reply_streams, then connections) *)
 Definition exit_trace (s : sv) : list tev :=
-  flat_map (fun x => [TSDrop (fst x); TDrop (cid (snd x))]) (streams s)
+  flat_map (fun x => [TSDrop (cid (snd x)) (fst x); TDrop (cid (snd x))]) (streams s)
   ++ map (fun c => TDrop (cid c)) (conns s) ++ [TExit].
 
 (* one iteration of the loop: select_biased! over accept / get_next_call / reply streams *)
@@ -359,3 +364,40 @@ End Server.
 
 Arguments SItem {P} r.
 Arguments SEnd {P}.
+
+Arguments NewConn {P} c.
+Arguments ListenerFail {P}.
+Arguments Arrive {P} c bs.
+Arguments CloseRead {P} c.
+Arguments FailRead {P} c.
+Arguments FailWrite {P} c k.
+Arguments StreamItem {P} key r.
+Arguments StreamEnd {P} key.
+Arguments Poll {P}.
+Arguments TAccept {P} c.
+Arguments TInvoke {P} c cl a.
+Arguments TNewStream {P} c key.
+Arguments TWrite {P} c m.
+Arguments TWriteFail {P} c m.
+Arguments TDrop {P} c.
+Arguments TSDrop {P} c key.
+Arguments TSYield {P} c key e.
+Arguments TExit {P}.
+Arguments accq {P} s.
+Arguments conns {P} s.
+Arguments streams {P} s.
+Arguments lastc {P} s.
+Arguments lasts {P} s.
+Arguments sst {P} s.
+Arguments squeue {P} s.
+Arguments known {P} s.
+Arguments stat {P} s.
+Arguments set_accq {P} s x.
+Arguments set_conns {P} s x.
+Arguments set_streams {P} s x.
+Arguments set_lastc {P} s x.
+Arguments set_lasts {P} s x.
+Arguments set_sst {P} s x.
+Arguments set_squeue {P} s x.
+Arguments set_known {P} s x.
+Arguments set_stat {P} s x.
